@@ -83,6 +83,17 @@ def _annotate(tree, rel):
             child._parent = parent
 
 
+def reference_func(real: "Func", class_source: str):
+    """A Func whose body is parsed from `class_source` (a class statement holding one method of the same name) but which resolves
+    names like `real` does (same module, same class): a documented construction folded / analysed in place of the repository's code."""
+    tree = ast.parse(class_source)
+    normalize(tree)
+    _annotate(tree, real.module.rel)
+    cls = next(c for c in tree.body if isinstance(c, ast.ClassDef))
+    node = next(f for f in cls.body if isinstance(f, ast.FunctionDef) and f.name == real.name)
+    return Func(node, real.module, real.cls)
+
+
 class Model:
     def __init__(self, src=SRC):
         self.src = src
